@@ -287,6 +287,40 @@ class CacheRun(Scenario):
         ctx.true(f"{tag}: a third run returns the same results from disk without recomputing", ok3 and CALLS["n"] == 0, info=str(CALLS["n"]))
 
 
+class CacheReuse(Scenario):
+    """One cache directory used by two different runs that share their keys (the row labels 0, 1, ... of two scan tables)."""
+
+    modules = ["mxlpy.parallel"]
+    validate = False
+
+    def __init__(self, parallel):
+        self.parallel = parallel
+        self.key = f"C19/map/reused-cache-other-values/{'pool' if parallel else 'seq'}"
+
+    def run(self, ctx):
+        import mxlpy.parallel as mpar
+        from mxlpy.parallel import Cache
+
+        tmp = Path(tempfile.mkdtemp(prefix="c19_"))
+        saved = (mpar.pebble, mpar.tqdm)
+        try:
+            stub = PebbleStub(ctx)
+            stub.explore = False
+            mpar.pebble = stub
+            mpar.tqdm = _Tqdm
+            cache = Cache(tmp_dir=tmp / "cache")
+            first = [(0, 1.0), (1, 2.0)]
+            second = [(0, 10.0), (1, 20.0)]
+            mpar.parallelise(work, first, cache=cache, parallel=self.parallel, disable_tqdm=True)
+            with_cache = mpar.parallelise(work, second, cache=cache, parallel=self.parallel, disable_tqdm=True)
+            without = mpar.parallelise(work, second, cache=None, parallel=self.parallel, disable_tqdm=True)
+            ctx.true("a cache directory that holds another run's results under the same keys: the same results as without a cache",
+                     same(with_cache, without), info=f"{with_cache!r} vs {without!r}"[:300])
+        finally:
+            mpar.pebble, mpar.tqdm = saved
+            shutil.rmtree(tmp, ignore_errors=True)
+
+
 def scenarios(tier, seed):
     scs = []
     # float keys and dotted names: distinct keys whose text only differs after the last dot
@@ -299,4 +333,7 @@ def scenarios(tier, seed):
     for par in (False, True):
         for fault in ("line", "write"):
             scs.append(CacheRun((5, 2), par, fault, what="scan"))
+    # minimal scenario of an open finding: results are filed under the key alone
+    scs.append(CacheReuse(False))
+    scs.append(CacheReuse(True))
     return scs
